@@ -421,8 +421,15 @@ type reqEvent struct {
 var inputRe = regexp.MustCompile(`^\+?[a-zA-Z0-9].*$`)
 
 // inputClass is the harness's own reading of the engine's input rules (pattern from the docs, 255 byte limit).
+// the extra input format of applications with Program.Valid.  The library keeps the formats in a package-level registry:
+// once an engine of this process has registered it, every engine of the process accepts it (validOn follows that).
+const customFormat = "^#[0-9]+$"
+
+var customRe = regexp.MustCompile(customFormat)
+var validOn = false
+
 func inputClass(in string) string {
-	if len(in) > 0 && !inputRe.Match([]byte(in)) {
+	if len(in) > 0 && !inputRe.Match([]byte(in)) && !(validOn && customRe.Match([]byte(in))) {
 		return "bad"
 	}
 	if len(in) > 255 {
@@ -452,6 +459,9 @@ type engineHost struct {
 
 func newHost(prog *Program, rec *sessRec, mode string, store dbLike, pick func(string, int) int) *engineHost {
 	h := &engineHost{prog: prog, rec: rec, mode: mode, store: store}
+	if prog.Valid {
+		validOn = true
+	}
 	h.rs = &recResource{prog: prog, rec: rec, pick: func(sym string, n int) int {
 		i := 0
 		if pick != nil {
@@ -468,6 +478,9 @@ func newHost(prog *Program, rec *sessRec, mode string, store dbLike, pick func(s
 // withOpts installs the application's pre-VM check function: the alternatives of the symbol "_first", chosen and logged
 // like any other external function (the engine calls it through a private resource, so only the call itself is visible).
 func (h *engineHost) withOpts(en *engine.DefaultEngine) *engine.DefaultEngine {
+	if h.prog.Valid {
+		en.AddValidInput(customFormat) // (refused as "already registered" for every engine but the first of the process; the format stays)
+	}
 	if !h.prog.Engine.First {
 		return en
 	}
@@ -928,6 +941,11 @@ func genProgram(rng *rand.Rand, name string) *Program {
 	}
 	// a child may not be its own parent on any path: a named move to X while X is on top panics in state.Down
 	// (outside C08's hypothesis); targets equal to the node itself were replaced by "." above.
+	// VERIF_VALID=1 (C17): a third of the applications accept one more input format (engine.AddValidInput) and get inputs in it
+	if os.Getenv("VERIF_VALID") == "1" && rng.Intn(3) == 0 {
+		p.Valid = true
+		p.Inputs = append(p.Inputs, "#7", "#42")
+	}
 	p.build()
 	return p
 }
